@@ -62,6 +62,12 @@ CHECKS = {
         note="The reference splitter and the reserved-word exclusion (conservative regex) are mine; the shape that glues the pieces of a mixed word is not checked because the property does not prescribe it.",
         ref="DESIGN.md §4 C06",
     ),
+    "C07": dict(
+        technique="model-based property testing: macro calls, subprocess macros and with-macro blocks are generated from structure (token soup with balanced brackets and complete strings; indented blocks) and the captured strings are compared with the generated texts; surrounding code compared with ast.parse of the program with the macro replaced",
+        text="Exploration: verbatim argument/body capture for the three macro kinds, in statement contexts and followed by further code. Held on everything generated.",
+        note="Expected texts come from the generated structure; an independent character scanner re-derives the call-macro split and mismatches are counted as generator errors, not violations. Backslash continuations inside arguments are not generated.",
+        ref="DESIGN.md §4 C07",
+    ),
     "C08": dict(
         technique="property-based testing: generated and mutated texts (Hypothesis-driven grammar, corpus, mutation, soup) against a pure tiling oracle over (text, token list)",
         text="Exploration: every generated text the tokenizer finishes on is checked against an oracle that needs nothing but the text and the token list (slice equality, order, gap shape, NEWLINE/INDENT/DEDENT/ENDMARKER structure). Held on everything generated; no proof.",
